@@ -89,6 +89,7 @@ pub enum Ev {
 }
 
 pub const INJECTED_PANIC: &str = "PV-INJECTED-PANIC";
+pub const TASK_PANIC: &str = "PV-TASK-PANIC";
 
 pub struct Cx {
   pub prog: Rc<Program>,
@@ -422,6 +423,9 @@ fn run_block<C: Context>(me: TaskId, block: &[Stmt], env: &mut [u8; NVARS], ctx:
       }
       Stmt::If { cond, then, els } => {
         if cond.eval(env) != 0 { run_block(me, then, env, ctx); } else { run_block(me, els, env, ctx); }
+      }
+      Stmt::PanicIf { cond } => {
+        if cond.eval(env) != 0 { panic!("{}: task T{} fails", TASK_PANIC, me); }
       }
     }
   }
